@@ -1,5 +1,5 @@
 #!/usr/bin/env python3
-"""Statement-deletion campaign: every stand-alone call statement of the files given is deleted in turn on a scratch
+"""Mutation campaigns (operator chosen with -m del|negif; default del). Statement-deletion campaign: every stand-alone call statement of the files given is deleted in turn on a scratch
 copy of /repo; the quick checks of the properties served by that package's contracts are run on the copy. Survivors
 (no check fails) are listed: each is either a harmless deletion (logging, metrics) or a gap in the contracts.
 usage: stmtdel.py [-j N] file.go ..."""
@@ -15,15 +15,50 @@ def props_for(repo, f):
     for m in re.finditer(r'props\(([^)]*)\)', open(c).read()):
         ps.update(p.strip() for p in m.group(1).split(','))
     return sorted(p for p in ps if p != "C07") + (["C07"] if "C07" in ps else [])
+IFRE = re.compile(r'^(\s*(?:\} else )?if )(.*)( \{)\s*$')
+def negate_if(line):
+    m = IFRE.match(line)
+    if not m: return None
+    head, cond, tail = m.groups()
+    if ';' in cond:
+        i = cond.rindex(';')
+        return head + cond[:i+1] + " !(" + cond[i+1:].strip() + ")" + tail
+    return head + "!(" + cond + ")" + tail
+MODE = "del"
+def funcs_by_file():
+    """start line of every function under contract and the properties whose evidence lists it"""
+    import glob
+    m = {}
+    for ev in glob.glob("/verif/evidence/C*.json"):
+        d = json.load(open(ev))
+        for fn in d["coverage"]["functions_under_contract"]:
+            file, line = fn["pos"].split(":")[0], int(fn["pos"].split(":")[1])
+            m.setdefault(file, {}).setdefault(line, set()).add(d["property_id"])
+    return m
+FBF = None
+def props_at(f, lineno, allprops):
+    """properties of the innermost function under contract starting at or before the line (closures start later
+    than their parents, so the nearest preceding start is the innermost candidate; parents are added too)"""
+    global FBF
+    if FBF is None: FBF = funcs_by_file()
+    starts = sorted(l for l in FBF.get(f, {}) if l <= lineno + 1)
+    if not starts: return []
+    ps = set()
+    for l in starts[-3:]:
+        ps |= FBF[f][l]
+    return [p for p in allprops if p in ps]
 def worker(args):
     idx, f, lineno, text, props = args
+    props = props_at(f, lineno, props)
+    if not props:
+        return (f, lineno + 1, text.strip(), "not-under-contract", "")
     tmp = tempfile.mkdtemp(prefix="stmtdel-")
     try:
         cp = os.path.join(tmp, "repo")
         shutil.copytree("/repo", cp, ignore=shutil.ignore_patterns(".git"))
         p = os.path.join(cp, f)
         L = open(p).read().split("\n")
-        L[lineno] = ""
+        L[lineno] = "" if MODE == "del" else negate_if(L[lineno])
         open(p, "w").write("\n".join(L))
         b = subprocess.run(["go", "build", "-o", os.devnull, "./" + os.path.dirname(f) + "/"], cwd=cp, env=ENV, capture_output=True, text=True)
         if b.returncode != 0:
@@ -39,14 +74,20 @@ def worker(args):
     finally:
         shutil.rmtree(tmp, ignore_errors=True)
 def main():
+    global MODE
     a = sys.argv[1:]; j = 3
-    if a and a[0] == "-j": j = int(a[1]); a = a[2:]
+    while a and a[0] in ("-j", "-m"):
+        if a[0] == "-j": j = int(a[1])
+        else: MODE = a[1]
+        a = a[2:]
     jobs = []
     for f in a:
         props = props_for("/repo", f)
         L = open(os.path.join("/repo", f)).read().split("\n")
         for i, l in enumerate(L):
-            if CALL.match(l) and not SKIP.match(l) and not l.strip().startswith("//"):
+            if MODE == "del" and CALL.match(l) and not SKIP.match(l) and not l.strip().startswith("//"):
+                jobs.append((len(jobs), f, i, l, props))
+            if MODE == "negif" and negate_if(l) and not l.strip().startswith("//"):
                 jobs.append((len(jobs), f, i, l, props))
     print(len(jobs), "candidate statements", flush=True)
     with ThreadPoolExecutor(max_workers=j) as ex:
